@@ -177,7 +177,7 @@ package scheduler
 //   slotOf[d][i]    the slot of consumer d.consumers[i] that this entry stands for
 //   entryOf[c][k]   the index in c.deps[k].consumers of the entry for slot k
 //   W               the set of enqueued jobs with remaining > 0
-//   disp, res       jobs sent to the workers / whose result was received
+//   disp, rep       jobs sent to the workers / whose result was received
 //@ macro D1 = forall(c, ScheduledJob, implies(in(c, enq), c.remaining == card(S[c])))
 //@ macro D2 = forall(c, ScheduledJob, forall(k, int, implies(in(k, S[c]), in(c, enq) && 0 <= k && k < len(c.deps) && !c.deps[k].done)))
 //@ macro D3 = forall(c, ScheduledJob, forall(k, int, implies(in(c, enq) && 0 <= k && k < len(c.deps), in(k, S[c]) || c.deps[k].done)))
@@ -185,7 +185,7 @@ package scheduler
 //@ macro D5 = forall(d, ScheduledJob, forall(i, int, forall(i2, int, implies(in(d, enq) && 0 <= i && i < i2 && i2 < len(d.consumers) && d.consumers[i] == d.consumers[i2], slotOf[d][i] != slotOf[d][i2]))))
 //@ macro D6 = forall(c, ScheduledJob, forall(k, int, implies(in(k, S[c]), 0 <= entryOf[c][k] && entryOf[c][k] < len(c.deps[k].consumers) && c.deps[k].consumers[entryOf[c][k]] == c && slotOf[c.deps[k]][entryOf[c][k]] == k)))
 //@ macro WDEF = forall(j, ScheduledJob, in(j, W) == (in(j, enq) && j.remaining > 0))
-//@ macro DISP = forall(j, ScheduledJob, implies(in(j, disp), in(j, enq) && j.remaining == 0)) && forall(j, ScheduledJob, implies(in(j, res), in(j, disp))) && forall(j, ScheduledJob, implies(in(j, enq), j.done == in(j, res) && j.remaining >= 0 && implies(j.done, j.remaining == 0)))
+//@ macro DISP = forall(j, ScheduledJob, implies(in(j, disp), in(j, enq) && j.remaining == 0)) && forall(j, ScheduledJob, implies(in(j, rep), in(j, disp))) && forall(j, ScheduledJob, implies(in(j, enq), j.done == in(j, rep) && j.remaining >= 0 && implies(j.done, j.remaining == 0)))
 //@ macro B2 = forall(i, int, implies(listlo(ready) <= i && i < listhi(ready), in(dataof(listat(ready, i)), enq) && ptr(ScheduledJob, dataof(listat(ready, i))).remaining == 0 && !in(dataof(listat(ready, i)), disp))) && forall(i, int, forall(i2, int, implies(listlo(ready) <= i && i < i2 && i2 < listhi(ready), dataof(listat(ready, i)) != dataof(listat(ready, i2)))))
 //   variants while the dependencies of the job being enqueued are processed (slots >= idx2 pending)
 //@ macro D3E = forall(c, ScheduledJob, forall(k, int, implies(in(c, enq) && 0 <= k && k < len(c.deps), in(k, S[c]) || c.deps[k].done || (c == job && k >= idx2))))
@@ -194,6 +194,17 @@ package scheduler
 //   variants while the consumers of the finished job are notified (entries >= idx4 pending)
 //@ macro D2N = forall(c, ScheduledJob, forall(k, int, implies(in(k, S[c]), in(c, enq) && 0 <= k && k < len(c.deps) && (!c.deps[k].done || (c.deps[k] == job && entryOf[c][k] >= idx4)))))
 //@ macro D4N = forall(i, int, implies(idx4 <= i && i < len(job.consumers), in(slotOf[job][i], S[job.consumers[i]]) && job.consumers[i].deps[slotOf[job][i]] == job && entryOf[job.consumers[i]][slotOf[job][i]] == i))
+
+//   failure propagation (ContinueOnError): a job with a failed or invalid finished dependency is invalid;
+//   an invalid job has a witness dependency; a finished invalid job carries a non-nil error
+//@ macro F1 = forall(c, ScheduledJob, forall(k, int, implies(in(c, enq) && 0 <= k && k < len(c.deps) && c.deps[k].done && c.deps[k].err != nil, c.invalid)))
+//@ macro F1E = forall(c, ScheduledJob, forall(k, int, implies(in(c, enq) && 0 <= k && k < len(c.deps) && c.deps[k].done && c.deps[k].err != nil, c.invalid || (c == job && k >= idx2))))
+//@ macro F1M = forall(c, ScheduledJob, forall(k, int, implies(in(c, enq) && 0 <= k && k < len(c.deps) && c.deps[k].done && c.deps[k].err != nil, c.invalid || (c.deps[k] == job && in(k, S[c]) && entryOf[c][k] >= idx3))))
+//@ macro F2 = forall(c, ScheduledJob, implies(in(c, enq) && c.invalid, 0 <= wit[c] && wit[c] < len(c.deps) && c.deps[wit[c]].done && c.deps[wit[c]].err != nil))
+//@ macro F3 = forall(j, ScheduledJob, implies(in(j, enq) && j.done && j.invalid, j.err != nil))
+//@ macro F4 = forall(j, ScheduledJob, implies(in(j, enq) && !j.done, j.err == nil))
+//@ macro N1 = card(enq) == nEnq && card(rep) == nRes && card(disp) == nDisp
+//@ macro E2 = implies(!s.continueOnError, forall(j, ScheduledJob, implies(in(j, enq) && j.done, j.err == nil)))
 
 //@ func (*Scheduler).run
 //@   ghost nEnq int = 0
@@ -205,11 +216,14 @@ package scheduler
 //@   ghost lastErr error = 0
 //@   ghost enq set[ref]
 //@   ghost disp set[ref]
-//@   ghost res set[ref]
+//@   ghost rep set[ref]
 //@   ghost W set[ref]
 //@   ghost S map[ref]set[int]
 //@   ghost slotOf map[ref]map[int]int
 //@   ghost entryOf map[ref]map[int]int
+//@   ghost wit map[ref]int
+//@   ghost nfail int = 0
+//@   ghost nFailRes int = 0
 //@   ghost tk ref = 0
 //@   at call NewTicker 1 ghost tk = ret
 //@   requires s != nil
@@ -237,6 +251,13 @@ package scheduler
 //@   loop 1 invariant [C01] D6-every-subscription-has-its-entry: $D6
 //@   loop 1 invariant [C19] W-waiting-counts-jobs-with-open-subscriptions: $WDEF && waiting == card(W)
 //@   loop 1 invariant [C01,C12] dispatched-and-finished-jobs: $DISP
+//@   loop 1 invariant [C08,C01] F1-failed-dependency-invalidates: $F1
+//@   loop 1 invariant [C08] F2-invalid-has-a-failed-dependency: $F2
+//@   loop 1 invariant [C08] F3-finished-invalid-job-carries-an-error: $F3
+//@   loop 1 invariant [C07,C01] E2-failfast-finished-jobs-are-error-free: $E2
+//@   loop 1 invariant [C08] F4-unfinished-jobs-have-no-error: $F4
+//@   loop 1 invariant [C07] N1-event-counters-count-distinct-jobs: $N1
+//@   loop 1 invariant [C08] H1-accumulated-error-has-one-entry-per-failing-result: implies(s.continueOnError, errsLen(s.err) == nfail && nfail == nFailRes)
 //@   loop 1 invariant [C01] B2-ready-list-holds-undispatched-jobs-without-open-subscriptions: $B2
 //
 //   select
@@ -248,6 +269,9 @@ package scheduler
 //@   at select 1 arm 1 assert [C03,C06] dispatch-gated-by-free-worker: ongoing < s.concurrency
 //@   at select 1 arm 1 assert [C01] guarantee-dispatch-sends-non-nil-front: sent != nil && listlen(ready) > 0 && dataof(listat(ready, listlo(ready))) == sent
 //@   at select 1 arm 1 assert [C01] dispatched-job-has-every-dependency-finished: forall(k, int, implies(0 <= k && k < len(sent.deps), sent.deps[k].done))
+//@   at select 1 arm 1 assert [C01,C07] failfast-dispatched-jobs-dependencies-are-error-free: implies(!s.continueOnError, forall(k, int, implies(0 <= k && k < len(sent.deps), sent.deps[k].err == nil)))
+//@   at select 1 arm 1 assert [C08] continue-mode-job-with-a-failed-dependency-is-marked-invalid: forall(k, int, implies(0 <= k && k < len(sent.deps) && sent.deps[k].err != nil, sent.invalid))
+//@   at select 1 arm 1 assert [C08] continue-mode-invalid-job-has-a-failed-dependency: implies(sent.invalid, sent.deps[wit[sent]].done && sent.deps[wit[sent]].err != nil && 0 <= wit[sent] && wit[sent] < len(sent.deps))
 //@   at select 1 arm 1 assert [C01] dispatched-job-was-never-dispatched-before: !in(sent, disp) && in(sent, enq)
 //@   at select 1 arm 1 ghost nDisp = nDisp + 1
 //@   at select 1 arm 1 ghost disp = add(disp, sent)
@@ -260,9 +284,11 @@ package scheduler
 //@   at select 1 arm 2 ghost enq = ite(recvok, add(enq, recv), enq)
 //@   at select 1 arm 2 ghost closedSeen = !recvok
 //@   at select 1 arm 3 assert [C05] L4-done-arm-is-donec: ch == s.donec
-//@   at select 1 arm 3 assume rely-worker-one-result-per-dispatched-job: nRes < nDisp && recv.Job != nil && in(recv.Job, enq) && in(recv.Job, disp) && !in(recv.Job, res)
+//@   at select 1 arm 3 assume rely-worker-one-result-per-dispatched-job: nRes < nDisp && recv.Job != nil && in(recv.Job, enq) && in(recv.Job, disp) && !in(recv.Job, rep)
+//@   at select 1 arm 3 assume rely-worker-invalid-or-cancelled-job-reports-an-error: implies(recv.Job.invalid, recv.Err != nil)
 //@   at select 1 arm 3 ghost nRes = nRes + 1
-//@   at select 1 arm 3 ghost res = add(res, recv.Job)
+//@   at select 1 arm 3 ghost nFailRes = nFailRes + ite(recv.Err != nil && !errorsIs(recv.Err, errJobInvalid), 1, 0)
+//@   at select 1 arm 3 ghost rep = add(rep, recv.Job)
 //@   at select 1 arm 3 ghost lastErr = recv.Err
 //@   at select 1 arm 4 assert [C19] ticker-arm-only-with-emitter: emitter != nil
 //
@@ -282,6 +308,9 @@ package scheduler
 //@   loop 2 invariant [C19] W-while-subscribing: $WDEF && waiting == card(W) - ite(in(job, W), 1, 0)
 //@   loop 2 invariant [C01,C12] dispatched-and-finished-jobs-while-subscribing: $DISP && !in(job, disp) && in(job, enq) && !job.done
 //@   loop 2 invariant [C01] B2-while-subscribing: $B2 && forall(i, int, implies(listlo(ready) <= i && i < listhi(ready), dataof(listat(ready, i)) != job))
+//@   loop 2 invariant [C08] F-while-subscribing: $F1E && $F2 && $F3 && $E2 && $F4
+//@   at store invalid 1 assert [C12] invalid-written-before-the-job-can-be-dispatched: !in(target, disp) && target == job
+//@   at store invalid 1 ghost wit[target] = idx2
 //@   at store consumers 1 ghost slotOf[target][len(target.consumers) - 1] = idx2
 //@   at store consumers 1 ghost entryOf[job][idx2] = len(target.consumers) - 1
 //@   at store remaining 1 ghost S[target] = add(S[target], idx2)
@@ -295,14 +324,24 @@ package scheduler
 //@   loop 4 invariant [C19] W-while-notifying: $WDEF && waiting == card(W)
 //@   loop 4 invariant [C01,C12] dispatched-and-finished-jobs-while-notifying: $DISP && job.done && in(job, enq)
 //@   loop 4 invariant [C01] B2-while-notifying: $B2
+//@   loop 4 invariant [C08] F-while-notifying: $F1 && $F2 && $F3 && $F4
 //@   at store remaining 2 assert [C01,C19] notified-consumer-had-an-open-subscription: val >= 0
 //@   at store remaining 2 ghost S[target] = remove(S[target], slotOf[job][idx4])
 //@   at store remaining 2 ghost W = ite(val == 0, remove(W, target), W)
+//
+//   done arm, ContinueOnError: loop 3 marks the consumers of the failed job invalid
+//@   loop 3 invariant [C08] F-while-invalidating: $F1M && $F2 && $F3 && $F4 && job.done && job.err != nil && in(job, enq)
+//@   at store invalid 2 assert [C12] invalid-written-only-while-the-consumer-waits: !in(target, disp) && in(target, enq)
+//@   at store invalid 2 ghost wit[target] = slotOf[job][idx3]
+//@   at call Append 1 pre assert [C08] accumulates-exactly-this-results-non-sentinel-error: arg0 == s.err && arg1 == res.Err && arg1 != nil && !errorsIs(arg1, errJobInvalid)
+//@   at call Append 1 ghost nfail = nfail + 1
 //
 //   exits
 //@   ensures@return1 [C07] failfast-exit-records-the-failure: !s.continueOnError && s.err == lastErr && s.err != nil
 //@   ensures@return2 [C07,C05] normal-exit-everything-reported: nEnq == nRes && closedSeen
 //@   ensures@return2 [C07] normal-exit-failfast-means-no-error: implies(!s.continueOnError, s.err == nil)
+//@   ensures@return2 [C08] continue-mode-error-has-one-entry-per-failing-result: implies(s.continueOnError, errsLen(s.err) == nFailRes)
+//@   ensures@return2 [C07,C08] normal-exit-every-received-job-finished: forall(j, ScheduledJob, implies(in(j, rep), in(j, enq) && j.done)) && card(rep) == nRes && card(enq) == nEnq
 //@   ensures [C05,C06] exit-closes-readyc-and-finishedc: closed(s.readyc) && closed(s.finishedc)
 //@   ensures [C05] exit-drains-enqueuec-until-closed: drained
 //@   ensures [C06] exit-outstanding-results-fit-donec: $OUT <= cap(s.donec)
